@@ -1530,3 +1530,140 @@ def c10_chunkdep(ctx):
             out.fail(key, '%s computes the next chunk size from the remaining input length (%s): the work a late worker still does after a match grows with the input instead of being bounded' % (key_of(b), t_str(bad[0])), b.where(), {'ret': t_str(r.ret)[:500]})
     out.floor('chunk_size_fns', n, 1 if not ctx.fixture else 0)
     return out
+
+
+# ======================================================================================= C14-NOWAIT
+# "never hangs": a panicking worker dies; anything that waits for progress made by *other* threads then waits for ever.
+SHARED_OBSERVERS = {'has_more', 'try_get_len', 'len', 'is_empty', 'is_completed', 'load', 'is_finished', 'try_recv', 'try_lock',
+                    'try_read', 'try_write', 'is_poisoned', 'strong_count', 'weak_count', 'compare_exchange', 'compare_exchange_weak',
+                    'fetch_add', 'fetch_sub', 'swap', 'get'}
+SHARED_TYPES = ('std::sync::atomic::', 'core::sync::atomic::', 'std::sync::mpsc::', 'std::sync::Mutex', 'std::sync::RwLock', 'std::sync::Arc',
+                'std::thread::JoinHandle', 'std::thread::ScopedJoinHandle', 'std::sync::OnceLock', 'std::cell::OnceCell')
+BLOCKING_CALLS = ('std::sync::Condvar::wait', 'std::sync::mpsc::Receiver::<T>::recv', 'std::sync::mpsc::Receiver::recv', 'std::thread::park',
+                  'std::sync::Barrier::wait', 'std::sync::mpsc::SyncSender::send', 'std::thread::sleep_until', 'std::sync::mpsc::Receiver::iter')
+
+
+def is_shared_observation(term):
+    """a call term that reads state other threads change: the concurrent iterator's progress, an atomic, a handle"""
+    if term[0] != 'call':
+        return False
+    c = term_callee(term)
+    m = c.split('::')[-1]
+    for tr in CONITER_TRAITS:
+        if c.startswith(tr + '::'):
+            return m not in (PULL_SIZED | PULL_ELEMENT | {'skip_to_end', 'into_seq_iter'})
+    if 'BufferedIter' in c:
+        return False
+    return m in SHARED_OBSERVERS and c.startswith(SHARED_TYPES)
+
+
+@rule('C14-NOWAIT', 'no loop of the library waits for progress made by other threads (a panicked worker makes none); no blocking primitive is used')
+def c14_nowait(ctx):
+    out = RuleOut('C14-NOWAIT')
+    F = ctx.facts
+    S = ctx.slots
+    if ctx.fixture:
+        names = sorted(b.name for b in F.fn_bodies())
+    else:
+        roots = list(S.terminals) + list(S.inherent_terminals) + list(S.runner_entries) + list(S.par_entries)
+        names = set()
+        for rn in roots:
+            names |= set(ctx.cg.reach(rn))
+        names = sorted(n for n in names if n in F.bodies)
+    from .spawnmodel import SpawnModel
+    sm = ctx.cache.get('spawnmodel')
+    if sm is None and not ctx.fixture:
+        sm = ctx.cache['spawnmodel'] = SpawnModel(ctx)
+    n_loops = n_obs = 0
+    for bn in names:
+        b = F.bodies[bn]
+        # blocking primitives: none are needed; each would wait on a thread that may have died
+        for bb, t in b.calls():
+            p = res(t)
+            if p.startswith(BLOCKING_CALLS) or decl(t).startswith(BLOCKING_CALLS):
+                k = 'C14-NOWAIT/%s/blocking/%s' % (key_of(b), method(t))
+                out.inst(k, False, p)
+                out.fail(k, '%s calls the blocking primitive %s on the path of a terminal call: if the thread it waits for has panicked the call hangs instead of panicking' % (key_of(b), p), b.where(t.get('line')))
+        cfg = ctx.cfg(b)
+        loops = cfg.loops()
+        if not loops:
+            continue
+        r = ctx.run(bn)
+        for h in sorted(loops):
+            L = loops[h]
+            if h not in r.visited:
+                continue
+            n_loops += 1
+            k = 'C14-NOWAIT/%s/loop@%s' % (key_of(b), loop_tag(b, cfg, h, L))
+            # spawn loops are bounded by the thread budget (C08-GUARD / C08-MAX)
+            spawns = [bb for bb in L if b.blocks[bb]['term']['t'] == 'call' and sg(b.blocks[bb]['term'].get('callee')) == SCOPE_SPAWN]
+            if sm is not None and bn in sm.hosts:
+                spawns += [e.bb for e in sm.hosts[bn]['events'] if e.bb in L]
+            exits = [(a, s) for (a, s) in cfg.loop_exits(h) if not b.blocks[s].get('cleanup') and a in r.visited]
+            obs_exits = []
+            free = 0
+            r0 = ctx.run0(bn)
+            # observations made anew in every iteration: the call itself is part of the loop
+            in_loop = {rr.calls[bb]['res'] for rr in (r, r0) for bb in L if bb in rr.calls}
+
+            def observed(a):
+                res_ = []
+                for rr in (r, r0):
+                    d = rr.switches.get(a, (None,))[0]
+                    if d is not None:
+                        res_ += [x for x in rr.deep_subterms(d) if is_shared_observation(x) and x in in_loop]
+                return res_
+
+            def merged(a):
+                d = r.switches.get(a, (None,))[0]
+                return d is not None and any(x[0] in ('set', 'phi') for x in subterms(d))
+
+            for (a, s) in exits:
+                t = b.blocks[a]['term']
+                d = r.switches.get(a, (None,))[0] if t['t'] == 'switch' else None
+                if d is None:
+                    free += 1
+                    continue
+                deps = observed(a)
+                if not deps and merged(a):
+                    # a flag joined from several paths: it also depends on the branches of this iteration that choose the path
+                    for c in sorted(L):
+                        if c != a and b.blocks[c]['term']['t'] == 'switch' and a in cfg.reach(c, avoid={h}):
+                            deps += observed(c)
+                if deps:
+                    obs_exits.append((a, deps[0]))
+                else:
+                    free += 1
+            if obs_exits:
+                n_obs += 1
+            waits = bool(exits) and free == 0 and not spawns
+            infinite = not exits and not any(b.blocks[bb]['term']['t'] == 'return' for bb in L)
+            okl = not waits and not infinite
+            out.inst(k, okl, '%d exits, %d independent of other threads, %d spawn(s) inside' % (len(exits), free, len(spawns)),
+                     nontrivial=bool(obs_exits), sample={'fn': key_of(b), 'loop_header_bb': h, 'exits': len(exits), 'thread_independent_exits': free,
+                                                         'observed': t_str(obs_exits[0][1])[:120] if obs_exits else None})
+            if waits:
+                a, dep = obs_exits[0]
+                out.fail(k, '%s: every exit of this loop depends on %s - state that only other threads advance - and the loop itself spawns nothing: '
+                            'when the workers it waits for have panicked it never ends, and the terminal call hangs instead of panicking'
+                         % (key_of(b), t_str(dep)[:100]), b.where(b.blocks[a]['term'].get('line') or first_line(b, h)))
+            elif infinite:
+                out.fail(k, '%s: loop without any exit on the path of a terminal call' % key_of(b), b.where(first_line(b, h)))
+    out.counts['loops'] = n_loops
+    out.counts['loops_observing_shared_state'] = n_obs
+    out.floor('loops', n_loops, 10 if not ctx.fixture else 0)
+    return out
+
+
+def first_line(b, bb):
+    blk = b.blocks[bb]
+    for st in blk['stmts']:
+        if st.get('line'):
+            return st['line']
+    return blk['term'].get('line')
+
+
+def loop_tag(b, cfg, h, L):
+    """a position-independent tag for a loop: its rank among the loops of the body in header order"""
+    hs = sorted(cfg.loops())
+    return 'L%d' % hs.index(h)
